@@ -29,32 +29,32 @@ Abs(x) == IF x < 0 THEN -x ELSE x
 RECURSIVE Pow(_, _)
 Pow(b, e) == IF e <= 0 THEN 1 ELSE b * Pow(b, e - 1)
 
-HasPrefixAt(s, t, i) ==   \* t occurs in s at 0-based offset i
+StrHasPrefixAt(s, t, i) ==   \* t occurs in s at 0-based offset i
   i >= 0 /\ i + Len(t) <= Len(s) /\ SubSeq(s, i + 1, i + Len(t)) = t
-IndexOf(s, t, i) ==
+StrIndexOf(s, t, i) ==
   IF i < 0 \/ i > Len(s) THEN -1
-  ELSE LET cand == { j \in i..Len(s) : HasPrefixAt(s, t, j) }
+  ELSE LET cand == { j \in i..Len(s) : StrHasPrefixAt(s, t, j) }
        IN IF cand = {} THEN -1 ELSE CHOOSE j \in cand : \A k \in cand : j <= k
-Contains(s, t) == IndexOf(s, t, 0) >= 0
-Substr(s, i, n) ==
+StrContains(s, t) == StrIndexOf(s, t, 0) >= 0
+StrSubstr(s, i, n) ==
   IF i < 0 \/ i >= Len(s) \/ n <= 0 THEN <<>>
   ELSE SubSeq(s, i + 1, IF i + n > Len(s) THEN Len(s) ELSE i + n)
-At(s, i) == Substr(s, i, 1)
-Replace(s, t, u) ==
-  LET j == IndexOf(s, t, 0)
+StrAt(s, i) == StrSubstr(s, i, 1)
+StrReplace(s, t, u) ==
+  LET j == StrIndexOf(s, t, 0)
   IN IF j < 0 THEN s ELSE SubSeq(s, 1, j) \o u \o SubSeq(s, j + Len(t) + 1, Len(s))
-RECURSIVE ReplaceAll(_, _, _)
-ReplaceAll(s, t, u) ==
+RECURSIVE StrReplaceAll(_, _, _)
+StrReplaceAll(s, t, u) ==
   IF t = <<>> THEN s
-  ELSE LET j == IndexOf(s, t, 0)
+  ELSE LET j == StrIndexOf(s, t, 0)
        IN IF j < 0 THEN s
-          ELSE SubSeq(s, 1, j) \o u \o ReplaceAll(SubSeq(s, j + Len(t) + 1, Len(s)), t, u)
-RECURSIVE LexLess(_, _)
-LexLess(a, b) ==
+          ELSE SubSeq(s, 1, j) \o u \o StrReplaceAll(SubSeq(s, j + Len(t) + 1, Len(s)), t, u)
+RECURSIVE StrLexLess(_, _)
+StrLexLess(a, b) ==
   IF b = <<>> THEN FALSE
   ELSE IF a = <<>> THEN TRUE
   ELSE IF Head(a) # Head(b) THEN Head(a) < Head(b)
-  ELSE LexLess(Tail(a), Tail(b))
+  ELSE StrLexLess(Tail(a), Tail(b))
 
 BoolOps == {"=", "distinct", "and", "or", "not", "=>", "xor", "<", "<=", ">", ">=", "str.<", "str.<=",
             "str.prefixof", "str.suffixof", "str.contains", "str.in_re", "str.is_digit"}
@@ -92,16 +92,16 @@ Ev(t, env) ==
            [] t.f = ">="  -> V(1) >= V(2)
            [] t.f = "str.len" -> Len(V(1))
            [] t.f = "str.++"  -> LET RECURSIVE C(_) C(j) == IF j > n THEN <<>> ELSE V(j) \o C(j + 1) IN C(1)
-           [] t.f = "str.at"  -> At(V(1), V(2))
-           [] t.f = "str.substr" -> Substr(V(1), V(2), V(3))
-           [] t.f = "str.prefixof" -> HasPrefixAt(V(2), V(1), 0)
-           [] t.f = "str.suffixof" -> HasPrefixAt(V(2), V(1), Len(V(2)) - Len(V(1)))
-           [] t.f = "str.contains" -> Contains(V(1), V(2))
-           [] t.f = "str.indexof"  -> IndexOf(V(1), V(2), V(3))
-           [] t.f = "str.replace"  -> Replace(V(1), V(2), V(3))
-           [] t.f = "str.replace_all" -> ReplaceAll(V(1), V(2), V(3))
-           [] t.f = "str.<"   -> LexLess(V(1), V(2))
-           [] t.f = "str.<="  -> V(1) = V(2) \/ LexLess(V(1), V(2))
+           [] t.f = "str.at"  -> StrAt(V(1), V(2))
+           [] t.f = "str.substr" -> StrSubstr(V(1), V(2), V(3))
+           [] t.f = "str.prefixof" -> StrHasPrefixAt(V(2), V(1), 0)
+           [] t.f = "str.suffixof" -> StrHasPrefixAt(V(2), V(1), Len(V(2)) - Len(V(1)))
+           [] t.f = "str.contains" -> StrContains(V(1), V(2))
+           [] t.f = "str.indexof"  -> StrIndexOf(V(1), V(2), V(3))
+           [] t.f = "str.replace"  -> StrReplace(V(1), V(2), V(3))
+           [] t.f = "str.replace_all" -> StrReplaceAll(V(1), V(2), V(3))
+           [] t.f = "str.<"   -> StrLexLess(V(1), V(2))
+           [] t.f = "str.<="  -> V(1) = V(2) \/ StrLexLess(V(1), V(2))
            [] t.f = "str.is_digit" -> Len(V(1)) = 1 /\ Digit(V(1)[1])
            [] t.f = "str.to_code"  -> IF Len(V(1)) = 1 THEN V(1)[1] ELSE -1
            [] t.f = "str.from_code" -> IF V(1) >= 0 /\ V(1) <= 196607 THEN <<V(1)>> ELSE <<>>
